@@ -49,8 +49,10 @@ def revisit_cases(rng, p, n):
         src.tempo, src.tss, src.anchors, src.gevents, src.unknown = [(0, rng.choice([120000, 90000]))], [(0, 4, None)], [], [], []
         ticks = [rng.choice([0, 32, 64, 100, 200, 201, 500]) for _ in range(rng.randint(3, 7))]
         ticks = [t_ for k_, t_ in enumerate(ticks) if k_ == 0 or t_ != ticks[k_ - 1]]   # adjacent equal ticks would be one note
+        if len(ticks) == 1:
+            ticks.append(ticks[0] + 7)
         if len(set(ticks)) == len(ticks):
-            ticks.append(ticks[0])
+            ticks.append(ticks[0])   # never adjacent to itself: at least one other tick lies between
         groups = [gen.NoteGroup(t_, {rng.randrange(5): 0} if rng.random() < 0.8 else {0: 0, 3: 0}) for t_ in ticks]
         src.tracks = [gen.TrackSrc(rng.randrange(10), rng.randrange(4), groups, [], [])]
         out.append((src, gen.render(src, rng, p, garbage=False)))
